@@ -127,6 +127,9 @@ type Exec struct {
 	curLoopWritable []string
 	inlineMode      bool
 	inlineDepth     int
+	loopNodes       []ast.Node
+	anchorRecs      []anchorRec
+	siteRecs        []anchorRec
 	scannerHandle   string
 	codeEnv         *Env
 	curLoopOrd      int
